@@ -1341,6 +1341,8 @@ impl DcpsDomainParticipant {
             data_writer
                 .transport_writer
                 .delete_matched_reader(Guid::from(<[u8; 16]>::from(subscription_handle)));
+            // The deleted reader might have been the only one with unacknowledged changes
+            data_writer.notify_acknowledgments_if_all_acknowledged();
 
             data_writer
                 .status_condition
@@ -2687,6 +2689,8 @@ impl DcpsDomainParticipant {
                 data_writer
                     .matched_subscription_list
                     .retain(|subscription| subscription.key.value[..12] != prefix);
+                // The removed readers might have been the only ones with unacknowledged changes
+                data_writer.notify_acknowledgments_if_all_acknowledged();
             }
         }
 
